@@ -220,7 +220,7 @@ func doSweep(only string, outPath string, withBCE bool) int {
 	if outPath != "" {
 		var lines []map[string]interface{}
 		for _, r := range results {
-			lines = append(lines, map[string]interface{}{"file": r.E.File, "line": r.E.Line, "fn": r.E.Fn, "op": r.E.Op, "outcome": r.Outcome, "by": r.By})
+			lines = append(lines, map[string]interface{}{"file": r.E.File, "line": r.E.Line, "fn": r.E.Fn, "op": r.E.Op, "outcome": r.Outcome, "by": r.By, "off": r.E.Sub.Off, "len": r.E.Sub.Len, "new": r.E.Sub.New})
 		}
 		b, _ := json.MarshalIndent(lines, "", " ")
 		_ = os.WriteFile(outPath, b, 0o644)
